@@ -463,6 +463,8 @@ def run(index: RepoIndex, rep) -> None:
              'observation function for the state it was given, unchanged', floor=2)
     from .wiring import observation_passthrough
     observation_passthrough(index, rep, 'C05.R9')
+    from .wiring import records_as_given
+    records_as_given(index, rep, 'C05.R9', ('Observation',))
     rep.rule('C05.R1', 'frame consistency of slice->rotate for the four headings, symbolic in '
              'area, position and cell; observation shape equals the view shape', floor=9)
     rep.rule('C05.R2', 'Grid.subgrid: the very object under a two-sided in-grid test, Hidden() '
